@@ -26,53 +26,41 @@ DAO_T = "{ar: Int, c: Int, s: Int, u: Int}"
 
 
 # ---------------------------------------------------------------------------------------------- scenarios
-def classes(chain):
-    """coarse classes of a TLC pattern (for sampling: every class must be replayed)"""
-    ch = chain["ch"]
-    cl = set()
-    for c, b in enumerate(ch, start=1):
-        for cm in b["commits"]:
-            ps = [p for p in range(1, len(ch) + 1) if cm["id"] in ch[p - 1]["props"] + ch[p - 1]["uprops"] and p < c]
-            cl.add("offset%d" % (c - min(ps)))
-            if len(ps) > 1:
-                cl.add("reproposed")
-            if cm["id"] in ch[min(ps) - 1]["uprops"]:
-                cl.add("earliest-is-uncle")
-        if len(b["commits"]) == 2:
-            cl.add("two-commits")
-    if any(b["props"] or b["uprops"] for b in ch[:1]) and any(ch[c - 1]["commits"] for c in range(2, len(ch) + 1)):
-        cl.add("block1-proposes")
-    return cl
+# named vacuity cases: every class (computed by Economics.tla!Classes) must occur on the REAL chains of every run
+REQUIRED = ["commit-at-w_close", "commit-at-w_far", "fee-share-rounded", "first-proposer-is-uncle", "reproposed",
+            "double-proposal-commit-inside-first-window", "uncle-first-then-reproposed"]
 
 
 def fees_for(rnd, n):
-    """distinct fees, small enough for sums of a chain to stay below 2^31, with every residue of fee*4 mod 10"""
+    """distinct fees, small enough for sums of a chain to stay below 2^31, never a multiple of 5 (fee*4/10 always rounds)"""
     out = set()
     while len(out) < n:
-        out.add(rnd.choice([rnd.randrange(1000, 2000), rnd.randrange(100000, 9000000)]) * 10 + rnd.randrange(10))
+        out.add(rnd.choice([rnd.randrange(1000, 2000), rnd.randrange(100000, 9000000)]) * 10 + rnd.choice([1, 2, 3, 4, 6, 7, 8, 9]))
     return sorted(out)
 
 
-def pattern_scenarios(chains, rnd, count):
-    by = {}
-    for ch in chains:
-        for cl in classes(ch) or {"none"}:
-            by.setdefault(cl, []).append(ch)
+def pattern_scenarios(models, rnd, count):
+    """models: [(chains exported by TLC with their classes, wc, wf)].  Stratified: two patterns of EVERY named class
+    (shifted by 1..3 blocks so that finding F8, which lives at block 1, cannot truncate them), then a seeded sample."""
     picked = []
-    for cl in sorted(by):
-        picked += rnd.sample(by[cl], min(2, len(by[cl])))
-    rest = [c for c in chains if c not in picked]
-    picked += rnd.sample(rest, max(0, min(len(rest), count - len(picked))))
-    res = []
-    for n, ch in enumerate(picked[:max(count, len(by) * 2)]):
+    for cl in REQUIRED:
+        cands = [(ch, wc, wf) for chains, wc, wf in models for ch in chains if cl in ch["classes"]]
+        if not cands:
+            raise V.ToolError("vacuous model: no exported chain has class %s" % cl)
+        for ch, wc, wf in rnd.sample(cands, min(2, len(cands))):
+            picked.append((ch, wc, wf, rnd.randrange(1, 4)))
+    allc = [(ch, wc, wf) for chains, wc, wf in models for ch in chains]
+    for n, (ch, wc, wf) in enumerate(rnd.sample(allc, max(0, count - len(picked)))):
         # shift 0 keeps the pattern's block 1 at height 1 (finding F8 lives there); other shifts avoid it
-        shift = 0 if n % 3 == 0 else rnd.randrange(1, 4)
+        picked.append((ch, wc, wf, 0 if n % 2 == 0 else rnd.randrange(1, 4)))
+    res = []
+    for n, (ch, wc, wf, shift) in enumerate(picked):
         has_uncle = any(b["uprops"] for b in ch["ch"])       # an uncle must lie in the epoch of the block embedding it
-        res.append({"id": "p%d" % n, "wc": 1, "wf": 2, "shift": shift, "epoch_len": 1000 if has_uncle else rnd.choice([5, 7, 1000]),
+        res.append({"id": "p%d" % n, "wc": wc, "wf": wf, "shift": shift, "epoch_len": 1000 if has_uncle else rnd.choice([5, 7, 1000]),
                     "epoch_reward": 1000003, "fees": fees_for(rnd, 2),
                     "blocks": [{"props": b["props"], "uprops": b["uprops"], "commits": [c["id"] for c in b["commits"]]}
-                               for b in ch["ch"]], "tail": 4})
-    return res, sorted(by)
+                               for b in ch["ch"]], "tail": wf + 2})
+    return res
 
 
 def random_scenario(rnd, n, wc, wf, ntx, length):
@@ -117,7 +105,7 @@ def build_chains(scenarios):
 
 
 # ---------------------------------------------------------------------------------------------- TLC judge (fees, locks)
-def judge_fees(c, scenarios, chains):
+def judge_fees(c, scenarios, chains, real_classes=None):
     n_targets = 0
     for (wc, wf) in sorted({(s["wc"], s["wf"]) for s in scenarios}):
         group = [s for s in scenarios if (s["wc"], s["wf"]) == (wc, wf)]
@@ -144,6 +132,9 @@ def judge_fees(c, scenarios, chains):
             v = seen[s["id"]]
             if not v["valid"]:
                 raise V.ToolError("chain %s accepted by the node is not a valid chain of Economics.tla (model/fixture mismatch)" % s["id"])
+            if real_classes is not None and s["shift"] >= 1:
+                for cl in v["classes"]:
+                    real_classes[cl] = real_classes.get(cl, 0) + 1
             stop = False
             for t in v["targets"]:
                 if stop:
@@ -263,16 +254,19 @@ def judge_amounts(c, scenarios, chains, timeout=900):
 
 # ---------------------------------------------------------------------------------------------- driver
 def model_check(c, tier):
-    cfg = "MC_Economics_quick.cfg"
-    res = V.tlc(PID, "MC_Economics", cfg, workers=4, timeout=1500)
-    if res["violated"]:
-        c.violation("model/" + res["violated"], "Economics.tla violates %s in %s" % (res["violated"], cfg),
-                    {"kind": "model", "cfg": cfg, "tlc_tail": res["out"][-3000:]})
-    V.require_coverage(res, ["AddBlock"], cfg)
-    c.add_tlc(res, cfg)
-    chains = V.tlc_json_lines(res["out"], "CHAIN")
-    if len(chains) < 1000:
-        raise V.ToolError("too few chains exported by the model: %d" % len(chains))
+    models = []
+    for cfg, wc, wf, cov in (("MC_Economics_quick.cfg", 1, 2, True), ("MC_Economics_13.cfg", 1, 3, False)):
+        res = V.tlc(PID, "MC_Economics", cfg, workers=4, timeout=1500, coverage=cov)
+        if res["violated"]:
+            c.violation("model/" + res["violated"], "Economics.tla violates %s in %s" % (res["violated"], cfg),
+                        {"kind": "model", "cfg": cfg, "tlc_tail": res["out"][-3000:]})
+        if cov:
+            V.require_coverage(res, ["AddBlock"], cfg)
+        c.add_tlc(res, cfg)
+        chains = V.tlc_json_lines(res["out"], "CHAIN")
+        if len(chains) < 1000 or res["queue"] != 0:
+            raise V.ToolError("%s: too few chains exported (%d) or search not exhausted" % (cfg, len(chains)))
+        models.append((chains, wc, wf))
     if tier == "thorough":
         r2 = V.tlc(PID, "MC_Economics", "MC_Economics_23.cfg", workers=4, timeout=1500, coverage=False)
         if r2["violated"]:
@@ -285,7 +279,7 @@ def model_check(c, tier):
     if r3["violated"] != "WalkOK":
         raise V.ToolError("oracle self-test failed: the proposer walk as coded does not violate WalkOK")
     c.set("selftest_walk_as_coded_rejected_by", r3["violated"])
-    return chains
+    return models
 
 
 def run(tier):
@@ -303,25 +297,28 @@ def run(tier):
         "permanent difficulty (constant epoch length); epoch boundaries with remainder rewards are crossed (epoch length 4..9)",
     ]
     rnd = random.Random(V.seed())
-    chains = model_check(c, tier)
-    pats, cls = pattern_scenarios(chains, rnd, 24 if tier == "quick" else 150)
+    models = model_check(c, tier)
+    pats = pattern_scenarios(models, rnd, 26 if tier == "quick" else 150)
     rands = [random_scenario(rnd, n, 2, 4, 4, 11) for n in range(6 if tier == "quick" else 40)]
     rands += [random_scenario(rnd, 100 + n, 1, 2, 3, 8) for n in range(4 if tier == "quick" else 30)]
     scenarios = pats + rands
     with open(os.path.join(V.workdir(PID), "scenarios.ndjson"), "w") as f:
         f.write("".join(json.dumps(s) + "\n" for s in scenarios))
     real = build_chains(scenarios)
-    targets = judge_fees(c, scenarios, real)
+    real_classes = {}
+    targets = judge_fees(c, scenarios, real, real_classes)
     for s in scenarios:
         c.case(s, any(b["commits"] for b in s["blocks"]))
     c.add("traces_validated_against_impl", len(scenarios))
-    c.set("pattern_classes_replayed", cls)
+    c.set("classes_on_real_chains_shifted_past_block_1", real_classes)
     c.set("targets_judged", targets)
     shares_not_block1 = sum(1 for s in scenarios for b in real[s["id"]]["blocks"][1:]
                             if b["n"] > s["wf"] + 1 and b["calc"]["target"] != 1 and b["calc"]["proposal_reward"] > 0)
     c.set("proposer_shares_for_targets_other_than_block_1", shares_not_block1)
-    if shares_not_block1 < 5 or "earliest-is-uncle" not in cls or "reproposed" not in cls:
-        raise V.ToolError("vacuous run: too few proposer shares outside block 1 (%d) or classes missing %s" % (shares_not_block1, cls))
+    absent = [cl for cl in REQUIRED if real_classes.get(cl, 0) == 0]
+    if shares_not_block1 < 5 or absent:
+        raise V.ToolError("vacuous run: proposer shares outside block 1: %d; named classes absent from the real chains: %s" % (
+            shares_not_block1, absent))
     # amounts at real magnitude for a subset
     amt = [s for s in scenarios if any(b["commits"] for b in s["blocks"])]
     amt = amt[:2] + rands[:1] if tier == "quick" else amt[:10] + rands[:6]
